@@ -8,12 +8,12 @@ import (
 	"fmt"
 	"net"
 	"sync"
-	"sync/atomic"
 	"time"
 
 	"github.com/pion/logging"
 	"github.com/pion/stun/v3"
 	"github.com/pion/transport/v4"
+	"github.com/pion/transport/v4/deadline"
 	"github.com/pion/turn/v5/internal/proto"
 )
 
@@ -47,8 +47,7 @@ type allocation struct {
 	net               transport.Net         // Thread-safe
 	refreshAllocTimer *PeriodicTimer        // Thread-safe
 	refreshPermsTimer *PeriodicTimer        // Thread-safe
-	readTimer         *time.Timer           // Thread-safe
-	readDeadline      atomic.Int64          // Thread-safe (UnixNano, 0 = no deadline)
+	readDeadline      *deadline.Deadline    // Thread-safe
 	mutex             sync.RWMutex          // Thread-safe
 	log               logging.LeveledLogger // Read-only
 }
